@@ -133,6 +133,9 @@ def check_array_dunders(repo: Repo, rep: Report, w: World) -> None:
                 variants_.append(("(array, array)", [B], {"b0": kind, "b1": kind}))
                 variants_.append(("(array, scalar)", [s], {"s": kind}))
                 variants_.append(("(array, literal)", [True if kind == "b" else 2], {}))
+                # the neutral-looking literals: 0 and 1 for integers, False for booleans (a fast path keyed on them must still be pointwise)
+                for lit_ in ((0, 1) if kind == "i" else (False,)):
+                    variants_.append((f"(array, literal {lit_})", [lit_], {}))
                 # operands whose elements are themselves compound expressions of the same family, built with the library's own
                 # operators: A op (B - C), A op (B + C) / A op (B & C), A op (B | C) - a kernel that looks inside its operands shows here
                 C = w.array(kind, "c", shape)
